@@ -132,6 +132,50 @@ CHECKS = {
              "interpreters are compared through the specification. Zero-width selectors and operands are in the box.",
         note="Trusted: TLC, the program renderer. A mismatch of the compiled circuit is reported by C01, of the "
              "testbench evaluator here."),
+    "C06": dict(
+        category="model_checking", design_ref="DESIGN.md section 4 (C06)",
+        technique="TLA+ oracle for driver conflicts and bit-precise combinational cycles (Drivers) as a builder machine; "
+                  "every enumerated configuration built with real Modules / Fragments / Instance / Memory / IOBuffer and "
+                  "converted; the observed outcome class must be in the set TLC computed",
+        text="TLC enumerates every configuration within the bounds (<= 3 modules in four hierarchy shapes, 1-2 signals of "
+             "2-3 bits, driver records per (module, domain) or primitive output over bit ranges, dependency edges from "
+             "bit-precise and word-level constructs) with the allowed outcome set {ok, driver_conflict, comb_cycle}, and "
+             "proves theorems such as bit-disjoint drivers never conflict and forward-only dependencies never cycle (two "
+             "oracle mutants must fail). Every state is built through the Module DSL with rtlil.convert and through the "
+             "Fragment API with build_netlist (plus Memory / io.Buffer variants); the rejecting layer and exception class "
+             "must match.",
+        note="Trusted: the Drivers.tla oracle (written from the guide and the property), the record-to-statement binding, "
+             "the exception-to-class mapping. If/Elif chains and two primitive outputs on one bit are not generated; a "
+             "cycle running only through always-overridden assignments allows either outcome."),
+    "C07": dict(
+        category="model_checking", design_ref="DESIGN.md section 4 (C07)",
+        technique="TLA+ builder HierGen enumerates design descriptions (hierarchies, clash-prone names, zero widths, "
+                  "instances, memories); each is converted by the real backend, read by a strict independent RTLIL parser "
+                  "and judged by TLC against the RtlilWF predicates over the JSON document",
+        text="TLC enumerates every design description of the HierGen machine (module trees, signal / port / submodule names "
+             "incl. duplicates, private names and $-suffixed look-alikes, widths incl. 0, every driver module and kind, "
+             "every set of reading modules, memories, foreign instances with parameters / attributes / i, o, io ports, "
+             "empty submodules); each is rendered with real Modules, converted with back.rtlil.convert, parsed, and TLC "
+             "evaluates UniqueNames, RefsExist, SlicesInBounds, WidthsAgree (against the Yosys cell library kept as TLA+ "
+             "data), PortIdsDense, SubmoduleCellsMatch, ForeignInstanceFaithful and ExactlyOneDriver per wire bit. Seeded "
+             "random larger designs and hand-picked corners take the same path; doctored documents must be rejected.",
+        note="Trusted: TLC, the RTLIL reader (grammar self-tested on malformed texts), the syntactic renderer. Port indices "
+             "may start at 0 or 1; foreign connections compared bit for bit only in the top module; identifiers without "
+             "blanks. Emitting an empty submodule is not a violation (the property only asks that it breaks nothing)."),
+    "C09": dict(
+        category="exploration", design_ref="DESIGN.md section 4 (C09)",
+        technique="TLA+ history monitor Observe(key, config, digest) (Repro / ReproTrace) run by TLC over histories recorded "
+                  "from real elaborations, simulations and build plans in interpreters with different hash seeds; TLA+ "
+                  "order-sensitivity model ElabOrder steering the design catalogue",
+        text="Histories are recorded in fresh interpreters differing in PYTHONHASHSEED (5 quick, 17 thorough) and "
+             "validated by TLC: rtlil.convert of 34 hand-written plus seeded random designs aimed at the features ElabOrder "
+             "shows to be order-sensitive (>= 2 implicitly created domains, name clashes, anonymous submodules), converted "
+             "twice and rebuilt; simulations run fresh / again / after reset() with traces, engine state and time-0 state; "
+             "build plans with files, digest(), archive bytes (also under a shifted clock) and the extract listing. TLC "
+             "proves the monitor exact on a small producer model and finds the set-iteration counterexample in ElabOrder.",
+        note="The TLA+ content is a thin monitor and a targeting model: the level is exploration. Trusted: TLC, sha256 "
+             "digests and their interning, the child-interpreter protocol, private engine attributes for the post-reset "
+             "snapshot. Detection of hash-seed dependence is probabilistic in the seeds used."),
     "C08": dict(
         category="model_checking", design_ref="DESIGN.md section 4 (C08)",
         technique="TLA+ kernel model AmSim (RunProc enabled for any ready process) model-checked over all schedules for a "
